@@ -1,5 +1,10 @@
 (* Properties/C29.v — A refused porcelain operation changes nothing.
-   Statements only; proofs in Proofs/C29.v and Proofs/Porcelain.v. *)
+   Statements only; proofs in Proofs/Porcelain.v.
+   Model: Model/Porcelain.v — Checkout and Reset of worktree.go with every
+   error exit the code has on flattened, directory/file-conflict-free states;
+   filesystem errors in the middle of a worktree update are OUTSIDE the model
+   (they do break the property on the real code when a directory sits where
+   the target has a file: known finding partial-failure-on-df-conflict). *)
 From Coq Require Import List NArith ZArith Bool String.
 From GoGit Require Import Base.Out Model.Porcelain Proofs.PorcelainMaps Proofs.Porcelain Proofs.C25 Proofs.C29.
 Import ListNotations.
@@ -12,53 +17,43 @@ Theorem C29_reset_atomic : forall commit m from s e s',
 Proof. exact reset_err_unchanged. Qed.
 Print Assumptions C29_reset_atomic.
 
-(* FULL statement for Checkout:
-     forall o s e s', checkout o s = (Some e, s') -> s' = s
-   is FALSE of the code: createBranch and the HEAD update run before Reset's
-   unstaged-changes check. *)
-Theorem C29_checkout_refuted :
-  exists o s e s', checkout o s = (Some e, s') /\ head s' <> head s.
+(* Checkout, every option combination, every error exit (option validation,
+   unstaged changes, dangling HEAD, existing branch, unborn HEAD with Create,
+   target that is no commit, unknown reference): the WHOLE state is as before.
+   True of the code since the repair "fix: decide every refusal of Checkout
+   before the branch is created and HEAD is moved"; before it the model refuted
+   the statement (HEAD moved / branch created, then ErrUnstagedChanges). *)
+Theorem C29_checkout_atomic : forall o s e s',
+  checkout o s = (Some e, s') -> s' = s.
+Proof. exact checkout_err_unchanged. Qed.
+Print Assumptions C29_checkout_atomic.
+
+(* once the checks of Checkout have passed, its final Reset cannot refuse: there
+   is no error exit after the first write *)
+Theorem C29_checkout_no_late_refusal : forall o s c m from s2,
+  checkout_pre o s = (None, ((c, m, from), s2)) -> exists s', reset c m from s2 = (None, s').
+Proof. exact reset_after_pre_succeeds. Qed.
+Print Assumptions C29_checkout_no_late_refusal.
+
+(* any op sequence: a refused step is a no-op *)
+Theorem C29_step_atomic : forall o s e s', step o s = (Some e, s') -> s' = s.
 Proof.
-  destruct checkout_moves_head_then_refuses as (s' & H1 & H2 & H3).
-  eexists _, c29_state, _, s'. split; [exact H1|]. rewrite H2, H3. discriminate.
+  intros o s e s' H. destruct o; cbn [step] in H.
+  - eapply checkout_err_unchanged; eauto.
+  - eapply reset_err_unchanged; eauto.
+  - discriminate.
+  - discriminate.
 Qed.
-Print Assumptions C29_checkout_refuted.
+Print Assumptions C29_step_atomic.
 
-Theorem C29_checkout_create_refuted :
-  exists o s e s', checkout o s = (Some e, s') /\
-    lookup (co_branch_name o) (refs s) = None /\ lookup (co_branch_name o) (refs s') <> None.
-Proof.
-  destruct checkout_creates_branch_then_refuses as (s' & H1 & H2 & H3 & _).
-  eexists _, c29_state, _, s'. split; [exact H1|]. cbn [co_branch_name co_branch o_new].
-  split; [exact H2|]. change (co_branch_name (mkCopts o_new 1 true false false)) with o_new.
-  rewrite H3. discriminate.
-Qed.
-Print Assumptions C29_checkout_create_refuted.
-
-(* strongest true statement: a refused Checkout never touches the index, the
-   worktree or any ref other than the branch it was asked about; when the
-   refusal comes from the phase before Reset ([pre_ok] = false: option
-   validation, existing branch, unknown reference, object that is no commit,
-   dangling HEAD) the whole state is unchanged provided Create is off, or the
-   error is one of the three validation errors; otherwise ([pre_ok] = true, the
-   refusal comes from Reset) the state is exactly the one Checkout had reached
-   before Reset: branch created, HEAD moved — the defect. *)
-Theorem C29_checkout_partial : forall o s e s', checkout o s = (Some e, s') ->
-  commits s' = commits s /\ idx s' = idx s /\ wt s' = wt s /\
-  (forall n, n <> co_branch_name o -> lookup n (refs s') = lookup n (refs s)) /\
-  (pre_ok o s = false -> co_create o = false -> s' = s) /\
-  (pre_ok o s = false -> early_err e = true -> s' = s) /\
-  (pre_ok o s = true -> exists x, checkout_pre o s = (None, (x, s'))).
-Proof. exact checkout_err_frame. Qed.
-Print Assumptions C29_checkout_partial.
-
-(* non-vacuity: both guards are satisfiable; a refusal before Reset (branch
-   and hash given together) leaves the witness state alone *)
-Example C29_pre_error_example :
-  pre_ok (mkCopts o_other 1 false false false) c29_state = false /\
+(* non-vacuity: every class of refusal occurs, on the very state that exposed the defect *)
+Example C29_refusals :
+  checkout (mkCopts o_other (-1) false false false) c29_state = (Some EUnstaged, c29_state) /\
+  checkout (mkCopts o_new 1 true false false) c29_state = (Some EUnstaged, c29_state) /\
+  checkout (mkCopts o_new 7 true true false) c29_state = (Some EObjectNotFound, c29_state) /\
   checkout (mkCopts o_other 1 false false false) c29_state = (Some EBranchHashExclusive, c29_state) /\
-  pre_ok (mkCopts o_other (-1) false false false) c29_state = true.
-Proof. vm_compute. repeat split. Qed.
+  checkout (mkCopts o_other (-1) true true false) c29_state = (Some EBranchExists, c29_state).
+Proof. exact refusals_leave_state. Qed.
 
 Example C29_reset_refusals :
   reset 1 Merge None c29_state = (Some EUnstaged, c29_state) /\
